@@ -63,7 +63,7 @@ func SameHostRedirectPolicy() RedirectPolicy {
 func AllowedHostRedirectPolicy(hosts ...string) RedirectPolicy {
 	m := make(map[string]struct{})
 	for _, h := range hosts {
-		m[strings.ToLower(getHostname(h))] = struct{}{}
+		m[getHostname(h)] = struct{}{}
 	}
 
 	return func(req *http.Request, via []*http.Request) error {
@@ -80,7 +80,7 @@ func AllowedHostRedirectPolicy(hosts ...string) RedirectPolicy {
 func AllowedDomainRedirectPolicy(hosts ...string) RedirectPolicy {
 	domains := make(map[string]struct{})
 	for _, h := range hosts {
-		domains[strings.ToLower(getDomain(h))] = struct{}{}
+		domains[getDomain(h)] = struct{}{}
 	}
 
 	return func(req *http.Request, via []*http.Request) error {
@@ -96,9 +96,19 @@ func AllowedDomainRedirectPolicy(hosts ...string) RedirectPolicy {
 // "host:port"), exactly as (*url.URL).Hostname reports it: a valid port is
 // removed, and so are the square brackets of an IP literal, whether or not a
 // port follows ("[::1]" and "[::1]:80" are both "::1"; a zone id is kept).
+//
+// A hostname with non-ASCII characters is compared in the ASCII (IDNA) form
+// the transport connects to, and only ASCII letters are lower-cased: Unicode
+// case mapping is not host identity ("İmroc.cc" lower-cases to "imroc.cc" but
+// is the host "xn--imroc-7fd.cc").
 func getHostname(host string) (hostname string) {
-	hostname = strings.ToLower((&url.URL{Host: host}).Hostname())
-	return
+	b := []byte(idnaASCIIFromURL(&url.URL{Host: host}))
+	for i, c := range b {
+		if 'A' <= c && c <= 'Z' {
+			b[i] = c + 'a' - 'A'
+		}
+	}
+	return string(b)
 }
 
 // getDomain returns what the domain policies compare: an IP address has no
